@@ -137,6 +137,10 @@ def units(w):
     U.extend(parser_units(w, "C20", only=tuple(n_ for n_ in __import__("contracts.parserproof", fromlist=["STRICT"]).STRICT
                                                + __import__("contracts.parserproof", fromlist=["LITERALS"]).LITERALS
                                                + list(__import__("contracts.parserproof", fromlist=["POSTFIX"]).POSTFIX))))
+    # binary operations and comparisons are positioned at their operator token (grammar-level units of C02 with the position
+    # obligations switched on)
+    from .c02_parser import parser_units as grammar_units
+    U.extend([u for u in grammar_units(w, "C20") if "parse_add_expr" in u.name or "parse_mul_expr" in u.name or "parse_rel_expr" in u.name])
     return U
 
 
@@ -217,6 +221,10 @@ def bounded(tier, seed):
         (["def", "a", "=", "1", ";", "[", "1", ",", "missing_name", ",", "3", "]"], 8, "runtime"),
         (["def", "o", "=", "<*", "a", "=", "1", "*>", ";", "o", "->", "nope", "(", ")"], (10, 11, 12), "runtime"),
         (["def", "a", "=", "1", ";", "a", "(", "2", ")"], (5, 6), "runtime"),
+        (["def", "a", "=", "10", ";", "a", "/", "(", "0", ")"], (5, 6), "runtime"),
+        (["def", "a", "=", "10", ";", "a", "%", "(", "a", "-", "10", ")"], (5, 6), "runtime"),
+        (["def", "f", "=", "fn", "(", ")", "1", ";", "f", "*", "[", "1", ",", "2", "]"], (8, 9), "runtime"),
+        (["def", "a", "=", "1", ";", "a", "+", "(", "'x'", "-", "1", ")"], (8, 9), "runtime"),
     ]
     rnd = random.Random(seed)
     nlay = 40 if tier == "thorough" else 12
